@@ -38,32 +38,6 @@ impl DocCase {
     }
 }
 
-fn has_pattern_escapable(n: &ANode) -> bool {
-    // known finding KF-C01-1 exclusion predicate: a pattern-typed value containing & < > ' "
-    let esc = |v: &AVal| matches!(v, AVal::Str(s) if s.contains(['&', '<', '>', '\'', '"']));
-    let pat = |s: Option<&autosar_data_specification::CharacterDataSpec>| matches!(s, Some(autosar_data_specification::CharacterDataSpec::Pattern { .. }));
-    for (a, v) in &n.attrs {
-        if pat(n.etype.find_attribute_spec(*a).map(|s| s.spec)) && esc(v) {
-            return true;
-        }
-    }
-    for c in &n.content {
-        match c {
-            AContent::Text(v) => {
-                if pat(n.etype.chardata_spec()) && esc(v) {
-                    return true;
-                }
-            }
-            AContent::Elem(e) => {
-                if has_pattern_escapable(e) {
-                    return true;
-                }
-            }
-        }
-    }
-    false
-}
-
 pub fn load(bytes: &[u8], strict: bool) -> Result<(AutosarModel, ArxmlFile, Vec<AutosarDataError>), AutosarDataError> {
     let m = AutosarModel::new();
     let (f, w) = m.load_buffer(bytes, "test.arxml", strict)?;
